@@ -82,8 +82,9 @@ Qed.
 (* ---- the optional query on a path that exists in every branch ---- *)
 Definition empty_done {A} (g : gen A) : bool := match g with ([], Done) => true | _ => false end.
 
-(* no branch without a match at a segment that could be created (F16b), no null
-   node with segments still to go (F10) *)
+(* no branch without a match at a segment that could be created (F16b).  (Until
+   fix 09e1e7a a second clause excluded a null node reached with segments still
+   to go - F10: the optional walk stopped there and yielded the null.) *)
 Fixpoint opt_ok (pf : nat) (segs : list pseg) (i : nat) (v : rval) (c : ctx) : bool :=
   match pf with
   | O => false
@@ -96,9 +97,7 @@ Fixpoint opt_ok (pf : nat) (segs : list pseg) (i : nat) (v : rval) (c : ctx) : b
           && forallb (fun x =>
                         if is_pylist x then opt_ok pf' segs (S i) x c
                         else match x with
-                             | RCoords nd par rf path anc =>
-                                 negb (is_pynone nd && (S i <? List.length segs))
-                                 && opt_ok pf' segs (S i) nd (mkctx par rf true path anc)
+                             | RCoords nd par rf path anc => opt_ok pf' segs (S i) nd (mkctx par rf true path anc)
                              | _ => true
                              end) (fst g)
       end
@@ -120,9 +119,7 @@ Proof.
     match goal with |- context[gbind ?g _] => set (gg := g) in * end.
     assert (E : gbind gg (fun x => if is_pylist x then EV pf MOpt segs (S i) x c
                                    else match x with
-                                        | RCoords nd par rf path anc =>
-                                            if is_pynone nd then gone x
-                                            else EV pf MOpt segs (S i) nd (mkctx par rf true path anc)
+                                        | RCoords nd par rf path anc => EV pf MOpt segs (S i) nd (mkctx par rf true path anc)
                                         | _ => gerr (PyCrash AttributeError)
                                         end)
                 = gbind gg (fun x => if is_pylist x then EV pf MReq segs (S i) x c
@@ -133,11 +130,7 @@ Proof.
     { apply gbind_ext_in. intros x Hx. rewrite forallb_forall in Hall. specialize (Hall x Hx).
       destruct (is_pylist x); [apply IH; exact Hall|].
       destruct x as [|l|nd par rf path anc]; try reflexivity.
-      apply andb_prop in Hall. destruct Hall as [Hn Ho].
-      destruct (is_pynone nd) eqn:Enone; [|apply IH; exact Ho].
-      cbn [andb] in Hn. apply negb_true_iff in Hn.
-      destruct pf as [|pf']; [discriminate Ho|].
-      cbn [ev]. unfold ev_body. rewrite Hn. reflexivity. }
+      apply IH; exact Hall. }
     destruct gg as [[|x0 l0] st] eqn:Eg; try exact E.
     destruct st; try exact E.
     cbn [empty_done andb] in Hne. apply negb_true_iff in Hne. rewrite Hne. exact E.
